@@ -33,3 +33,32 @@ package utils
 //@   ensures ERR: [C20 C09] result.2 != nil ==> !result.0 && result.1 == nil
 //@   loop range receptorNames
 //@     invariant NOTYET: !found && forall j int :: 0 <= j && j <= rangeindex ==> receptorNames[j] != expectedHostname
+
+// ---- C17: the broker goroutine is the only closer of subscriber channels; it closes a channel once, never while
+// ---- one of its own deliveries to it can still be pending, and never a channel it does not know
+
+// values travelling on subCh are fresh subscriber channels (proved at the send in Subscribe)
+//@ spec chanelem_Broker_subCh(v chan interface{}) bool := v != nil && !closed(v)
+
+//@ immutable Broker.ctx, Broker.subCh, Broker.unsubCh, Broker.publishCh, Broker.msgType
+//@ func (*Broker).Subscribe
+//@   tags C17
+//@   safetytags C17
+//@   safety
+//@   requires b != nil && b.ctx != nil
+
+//@ func (*Broker).start
+//@   tags C17
+//@   safetytags C17
+//@   safety
+//@   requires b != nil && b.ctx != nil
+//@   ghostflag delivering set call:start$1 clear call:Wait
+//@   site call close QUIESCENT: [C17] requires !flag("delivering")
+//@   loop for
+//@     invariant OPEN: [C17] forall ch int :: (ch in subs) ==> ch != nil && !closed(ch)
+//@     invariant IDLE: [C17] !flag("delivering")
+//@   loop range subs
+//@     invariant OPEN2: [C17] forall ch int :: (ch in subs) && !visited(ch) ==> ch != nil && !closed(ch)
+//@     invariant IDLE2: [C17] !flag("delivering")
+//@   loop range subs
+//@     invariant OPEN3: [C17] forall ch int :: (ch in subs) ==> ch != nil && !closed(ch)
